@@ -313,6 +313,25 @@ theorem bindings_are_subvalues (p : SPat) (x : Val) (bs : List (Nat × Val)) (h 
     (varPaths p []).map (fun xp => (xp.1, subAt xp.2 x)) = bs.map (fun b => (b.1, some b.2)) :=
   bind_paths p x x [] bs rfl h
 
+/-- hoisted clause bodies (repaired leaf): whatever order a leaf collected the clause's assignments
+in, the body sees every variable bound to the sub-value at that variable's own path -/
+theorem hoisted_call_fixed_correct (params leaf : List Assign) (root : Val)
+    (hd : (leaf.map (·.1)).Nodup) (hsub : ∀ p ∈ params, p ∈ leaf) :
+    callEnvFixed params leaf root = params.map (fun p => (p.1, subAt p.2 root)) := by
+  simp only [callEnvFixed, reorderArgs_eq hd hsub]
+  exact zip_map_self params (·.1) (fun a => subAt a.2 root)
+
+/-- before the fix the arguments were passed in the leaf's own order: with the assignments of
+`([Some(a), ..], H3(b, c, _))` collected as `[b, c, a]` by one leaf and `[a, b, c]` by the first one,
+`a` receives the value of `b`, `b` that of `c`, `c` that of `a` (the failure found on the real code) -/
+example :
+    let root : Val := .ctor 0 [.ctor 1 [.ctor 2 [.lit (.int 7)], .ctor 3 []], .ctor 4 [.lit (.int 1), .lit (.int 2), .lit (.int 3)]]
+    let params : List Assign := [(0, [0, 0, 0]), (1, [1, 0]), (2, [1, 1])]
+    let leaf : List Assign := [(1, [1, 0]), (2, [1, 1]), (0, [0, 0, 0])]
+    callEnvUnfixed params leaf root = [(0, some (.lit (.int 1))), (1, some (.lit (.int 2))), (2, some (.lit (.int 7)))] ∧
+    callEnvFixed params leaf root = [(0, some (.lit (.int 7))), (1, some (.lit (.int 1))), (2, some (.lit (.int 2)))] :=
+  ⟨rfl, rfl⟩
+
 /-- the clause chosen with bindings is the first clause whose simplified pattern matches -/
 theorem firstBind_is_firstMatch (cs : List SPat) (x : Val) :
     (firstBind cs x).map (·.1) = firstMatch (cs.map simplify) x :=
